@@ -264,6 +264,10 @@ namespace Pistache::Http
 
             auto* response = static_cast<Response*>(message);
 
+            // not enough data yet to tell the version
+            if (cursor.remaining() < strlen("HTTP/1.1"))
+                return State::Again;
+
             if (match_raw("HTTP/1.1", strlen("HTTP/1.1"), cursor))
             {
                 // response->version = Version::Http11;
